@@ -103,6 +103,13 @@ func ruleC10TableIndex(c *Ctx) {
 				if _, isConst := idx.(*ssa.Const); isConst {
 					continue // the compiler checks constant indexes of arrays; a constant slice index is a fixed slot
 				}
+				// an array with an entry for every value of the index's type (a [256] table indexed by a byte)
+				if arr, isArr := derefType(g.Type()).Underlying().(*types.Array); isArr {
+					if bt, isB := idx.Type().Underlying().(*types.Basic); isB && (bt.Kind() == types.Uint8 && arr.Len() >= 256 || bt.Kind() == types.Uint16 && arr.Len() >= 65536) {
+						c.OK("C10.TABLEINDEX", FnName(fn)+": "+g.Name()+"[...]", p.Pos(in.Pos()), "the array has an entry for every value of the index's type")
+						continue
+					}
+				}
 				if fi == nil {
 					fi = factsOf(fn)
 				}
